@@ -271,6 +271,10 @@ class Alg:
             subs = self.cos_arg[at].n.atoms()
         elif at in self.inverse and at.startswith('inv('):
             subs = {self.inverse[at]}
+        elif at in getattr(self, 'func_arg', {}):
+            subs = set()
+            for a_ in self.func_arg[at][1]:
+                subs |= a_.n.atoms()
         for s_ in subs:
             if s_ not in seen:
                 seen.add(s_)
@@ -363,7 +367,10 @@ class Alg:
         if self._inv_atoms_in(p) or any(x.startswith('inv(') for x in p.atoms()):
             # sqrt(n / d): only the monomial case sqrt(c * prod a^2k * inv(b)^2k)
             if not (len(p.t) == 1):
-                raise ValueError('sqrt of a quotient')
+                # a quotient under the root: kept as an opaque root atom (sqrt(q)^2 -> q)
+                name = 'sqrt(%s)' % p.key()
+                self.sqrt_of[name] = p
+                return Rat(self.p_atom(name), self.p_const(1))
         # sqrt(1 - sin(u)^2) -> cos(u)
         if len(p.t) == 2 and p.t.get(()) == 1:
             (m, c), = [(m, c) for m, c in p.t.items() if m != ()]
@@ -455,6 +462,15 @@ class Alg:
     def call_atom(self, text):
         return Rat(self.p_atom(text), self.p_const(1))
 
+    def func(self, fname, *args):
+        """uninterpreted real function of normal-form arguments (arcsin, arctan2, ...):
+        an atom whose arguments take part in substitution."""
+        name = '%s(%s)' % (fname, ', '.join(self.key(a) for a in args))
+        if not hasattr(self, 'func_arg'):
+            self.func_arg = {}
+        self.func_arg[name] = (fname, list(args))
+        return Rat(self.p_atom(name), self.p_const(1))
+
     # --------------------------------------------------------- substitutions
     def subst(self, a, mapping):
         """Substitute atoms by values (mapping atom -> Rat), also inside the arguments
@@ -479,6 +495,9 @@ class Alg:
                 v = self.recip(self.subst(self._r(iv[at]), mapping))
             elif at.startswith('inv(') and at in self.inverse:
                 v = self.recip(atom_val(self.inverse[at]))
+            elif at in getattr(self, 'func_arg', {}):
+                fn_, args_ = self.func_arg[at]
+                v = self.func(fn_, *[self.subst(a_, mapping) for a_ in args_])
             else:
                 v = self._r(self.p_atom(at))
             cache[at] = v
